@@ -20,7 +20,8 @@ LIVE_RULE = (
     "each ends with the closing procedure + probe call. Direct oracles over ALL connections of the session in the order the "
     "reference server decrypted the frames: one session id; msg_id mod 4 = 0 and strictly increasing, seq_no non-decreasing also across "
     "a reconnect (keys ...-across-reconnect); odd seq_no iff not msgs_ack; for every server msg id the number of msgs_ack naming it >= "
-    "the number of its deliveries with odd seq_no whose processing did not end in an error.")
+    "the number of its deliveries with odd seq_no - also of messages whose processing ends in an error (rpc_result nobody waits for, "
+    "undecodable body, bad_msg_notification) and of the container items after them; only what the transport refuses is exempt.")
 
 
 def run(ctx):
